@@ -54,6 +54,10 @@ type c19 struct {
 	applied             uint64
 	queue               []qitem
 	open                *pb.Update // begun, not yet ended cycle
+	// acked: highest index whose persistence has been acknowledged to the log
+	// (Peer.Commit) and that has not been truncated or replaced since; "which
+	// entries still have to be persisted" is exactly (max(acked, snapshot), last]
+	acked uint64
 }
 
 type nopCompactor struct{}
@@ -253,6 +257,16 @@ func (s *c19) begin(more bool) (msg string) {
 			}
 		}
 	}
+	// exactly the entries not yet acknowledged as persisted, no more
+	needFrom := s.acked
+	if s.snapIndex > needFrom {
+		needFrom = s.snapIndex
+	}
+	needFrom++
+	if n := len(ud.EntriesToSave); n > 0 && ud.EntriesToSave[0].Index < needFrom {
+		return fmt.Sprintf("entriesToSave starts at %d although the entries up to %d were already handed out, persisted and acknowledged (they are offered for persistence again)",
+			ud.EntriesToSave[0].Index, needFrom-1)
+	}
 	inSave := func(i, t uint64) bool {
 		for _, e := range ud.EntriesToSave {
 			if e.Index == i && e.Term == t {
@@ -344,6 +358,11 @@ func (s *c19) end(sel uint32) string {
 	if p := ud.UpdateCommit.Processed; p > 0 {
 		s.processed = p
 	}
+	if n := len(ud.EntriesToSave); n > 0 {
+		if le := ud.EntriesToSave[n-1]; le.Index <= s.last() && s.mterm(le.Index) == le.Term && le.Index > s.acked {
+			s.acked = le.Index
+		}
+	}
 	return ""
 }
 
@@ -396,6 +415,9 @@ func (s *c19) Step(e uint32) (msg string) {
 				return "tryAppend reported no change for new entries"
 			}
 			s.truncateTo(first - 1)
+			if s.acked > first-1 {
+				s.acked = first - 1 // the replaced suffix has to be persisted again
+			}
 			for i := 0; i < fresh; i++ {
 				s.ents = append(s.ents, ment{s.curTerm})
 			}
@@ -427,6 +449,7 @@ func (s *c19) Step(e uint32) (msg string) {
 		s.ents = nil
 		s.snapIndex, s.snapTerm = idx, s.curTerm
 		s.committed, s.processed = idx, idx
+		s.acked = idx
 	case kCycle:
 		if msg := s.begin(a&1 == 1); msg != "" {
 			return msg
@@ -537,7 +560,7 @@ func (s *c19) Check() (msg string) {
 
 func (s *c19) Canon() []byte {
 	c := &verifkit.CanonBuf{}
-	c.U(s.snapIndex, s.snapTerm, s.committed, s.processed, s.curTerm, s.applied, uint64(len(s.ents)))
+	c.U(s.snapIndex, s.snapTerm, s.committed, s.processed, s.curTerm, s.applied, s.acked, uint64(len(s.ents)))
 	for _, e := range s.ents {
 		c.U(e.term)
 	}
